@@ -153,12 +153,18 @@ pub fn c08(args: Args) {
     run_histories(&mut run, &args, 1008, args.tier.pick(50, 2500), &prof_conf, &hooks_conf);
     // late joiner: a third replica joins by refresh from a random replica in the middle of the
     // history, while changes are still in flight between the other two (equal clocks)
-    let prof_late = Profile { pop: prof.pop.clone(), w: prof.w.clone(), replicas_min: 3, replicas_max: 3, skewed_quarters: 0, late_joiner: true, ..prof };
+    // few objects and many single-valued edits / clears, so that a write on one replica and a later
+    // clear of the same attribute on another are in flight when the third replica joins
+    let prof_late = Profile {
+        pop: Pop { persons: 2, services: 1, groups: 2, dyngroups: 0, oauths: 0, certs: 0, names: 4 },
+        w: Weights { create: 30, rename: 6, set_desc: 40, add_member: 12, rem_member: 10, delete: 4, advance_small: 6, repl: 22, abort: 1, ..Default::default() },
+        replicas_min: 3, replicas_max: 3, skewed_quarters: 0, late_joiner: true, ops_min: 20, ops_max: 50, ..prof
+    };
     let end_late = |w: &World, quiesced: bool, s: &[SchemaSnap], acc: &mut Acc| -> Vec<Finding> {
         end(w, quiesced, s, acc).into_iter().map(|(sig, why)| (sig.replacen("c08/", "c08/late-joiner/", 1), why)).collect()
     };
     let hooks_late = Hooks { after_op: &after, at_end: &end_late, nontrivial: &nt, dyn_check: false, quiesce: true, verify_sig: Some("c08/server-verify") };
-    run_histories(&mut run, &args, 2008, args.tier.pick(60, 2500), &prof_late, &hooks_late);
+    run_histories(&mut run, &args, 2008, args.tier.pick(90, 3000), &prof_late, &hooks_late);
     let lj = run.acc.get("late_joiner_refreshed") > 0;
     run.require(lj, "no late joiner was ever refreshed");
     for k in ["create", "rename", "set_desc", "add_member", "delete", "repl"] {
